@@ -132,7 +132,8 @@ ALL_MENU = (
 )
 DD_ALTS = (("f", 1, "pos"), ("f", 1, "kw"), ("f", 1, "def"), ("f", 2, "pos"), ("g", 1, "pos"),
            ("mx", 1, "pos"), ("mx", 1, "mix"), ("my", 1, "pos"), ("s", 1, "pos"), ("sx", 1, "def"), ("h", 1, "pos"),
-           ("p", 1, "pos"), ("q", 1, "pos"))  # p/q: two distinct functions with the same module and __name__
+           ("p", 1, "pos"), ("q", 1, "pos"),
+           ("k", 1, "o1"), ("k", 1, "o2"))  # k: f(key, **opts) called with different extra options  # p/q: two distinct functions with the same module and __name__
 
 
 def variants(prog, menu):
